@@ -33,8 +33,9 @@ def snapshot(arrays):
             for a in arrays]
 
 
-def build(M):
-    """MeshFields plus the list of every numpy array handed to the library"""
+def build(M, column_scalars=False):
+    """MeshFields plus the list of every numpy array handed to the library (column_scalars: scalar fields stored as (n, 1)
+    arrays, as some writers hand them out, instead of (n,))"""
     from fieldcompare.mesh import Mesh, MeshFields, CellType
     arrays = []
     pts = np.array([[float(x) for x in p] for p in M["pts"]], dtype=float).reshape(len(M["pts"]), M["dim"])
@@ -48,10 +49,14 @@ def build(M):
     for name, rows in M["pf"].items():
         isint = rows and isinstance(G.first_scalar(rows[0]), int)
         pd[name] = G.to_numpy_rows(rows, dtype=np.int64 if isint else float)
+        if column_scalars and pd[name].ndim == 1:
+            pd[name] = pd[name].reshape(-1, 1)
         arrays.append(pd[name])
     cd = {}
     for name, per in M["cf"].items():
         cd[name] = [G.to_numpy_rows(per[t]) for t, _ in M["blocks"]]
+        if column_scalars:
+            cd[name] = [x.reshape(-1, 1) if x.ndim == 1 else x for x in cd[name]]
         arrays += cd[name]
     f = MeshFields(Mesh(pts, conn), pd, cd)
     f._verif_parts = (pts, conn, pd, cd)          # (harness attribute) the very arrays, to build further objects on them
@@ -83,8 +88,9 @@ def run_history(ctx, rng, idx):
         # points stored in ascending x order but unordered in y within equal x (a common output order of mesh generators)
         n_ = len(M["pts"])
         M = G.reorder_points(M, sorted(range(n_), key=lambda i: (M["pts"][i][0], -M["pts"][i][1] if M["dim"] > 1 else 0)))
-    a, arrs_a = build(M)
-    b, arrs_b = build(N)
+    cols = rng.choice(["none", "none", "source", "reference"])     # one side stores its scalar fields as (n, 1) columns
+    a, arrs_a = build(M, column_scalars=cols == "source")
+    b, arrs_b = build(N, column_scalars=cols == "reference")
     arrays = arrs_a + arrs_b
     readonly = rng.random() < 0.5
     if readonly:
@@ -95,7 +101,7 @@ def run_history(ctx, rng, idx):
     ops = [rng.choice(OPS) for _ in range(rng.randint(2, 8))]
     canon = {"source": json.loads(json.dumps({k: v for k, v in M.items() if k != "_orph"}, default=str)),
              "reference": json.loads(json.dumps({k: v for k, v in N.items() if k != "_orph"}, default=str)), "ops": ops, "kind": kind,
-             "inputs_write_protected": readonly}
+             "inputs_write_protected": readonly, "scalar_fields_as_columns": cols}
     work = os.path.join(str(ctx.workdir), f"h{idx}")
     os.makedirs(work)
     comparator = MeshFieldsComparator(a, b)
@@ -280,6 +286,8 @@ def run_history(ctx, rng, idx):
                     ragged = any(len({len(r) for r in rows}) > 1 for X in (M, N) for _, rows in X["blocks"])
                     if op in ("to_meshio", "from_meshio_roundtrip") and ragged:
                         ctx.count("meshio conversion refused polygons with differing corner counts (meshio limitation)")
+                    elif cols != "none" and op in ("merge", "diff") and "number of dimensions" in str(e):
+                        ctx.count(f"{op} refused scalar fields stored as (n,) on one side and (n, 1) on the other (no side effect)")
                     elif "read-only" in str(e):
                         ctx.violation("E4", f"operation '{op}' tries to write into an array of the data sets it was given "
                                             f"(the arrays were write-protected: {e})", canon, executed=executed + [op])
